@@ -140,7 +140,9 @@ def task_displacement(arg):
                     add(f"{sig0}/not-rigid-translation", f"{js(d)}; {where}")
                 if op_name == "trans":
                     frac = np.linalg.solve(CELLS[cellname].T, after.mean(axis=0))
-                    if np.abs(frac - np.array(q[:3])).max() > 1e-10 and gname == "mid":
+                    # each fractional coordinate is one of the drawn uniforms (in whatever order the
+                    # implementation assigns them): a uniform grid of answers gives a uniform grid of centroids
+                    if np.abs(np.sort(frac) - np.sort(np.array(q[:3]))).max() > 1e-10 and gname == "mid":
                         add(f"{sig0}/centroid-not-at-drawn-fractional-point", f"fractional centroid {js(frac)}; {where}")
                     if (frac < -1e-12).any() or (frac > 1 + 1e-12).any():
                         add(f"{sig0}/centroid-outside-cell", f"fractional centroid {js(frac)}; {where}")
